@@ -53,18 +53,35 @@ Fwd(c, um, i) ==
 
 \* ------------------------------------------------ bulk delete (storage.Storage.DeleteObjects)
 \* Not part of the PithosMC call alphabet; modelled here from metadatapart/delete.go:DeleteObjects: one
-\* transaction, the entries one after the other, each exactly like DeleteObject(key, no version id, If-Match) -
-\* except that a failed precondition is a PER-ENTRY result (Deleted = false, PreconditionFailed): the entry changes
-\* nothing, the remaining entries are still processed and the call as a whole succeeds.
-\* call: [op |-> "DeleteObjects", b, entries : Seq([k, cond])], cond in {"none", "ifm-cur", "ifm-stale"}
+\* transaction, the entries one after the other.  Per entry (no version id):
+\*   1. the entry's TARGET is looked up: the current version - but in a versioning-SUSPENDED bucket the "null"
+\*      version (HeadObjectVersion(.., "null")), whether or not it is current;
+\*   2. an If-Match condition is pre-checked against that target: no target, a delete-marker target or another
+\*      ETag => PER-ENTRY result (Deleted = false, PreconditionFailed), nothing changes, the remaining entries
+\*      are still processed, the call as a whole succeeds;
+\*   3. otherwise the key-level delete of Pithos!DeleteObject takes place (the metadata store evaluates the
+\*      condition once more, against the CURRENT version, whose ETag the condition carries).
+\* In a never-versioned or versioning-enabled bucket target = current, and an entry behaves exactly like
+\* DeleteObject(key, If-Match).  In a SUSPENDED bucket it does not: DeleteObject evaluates If-Match against the
+\* current version, DeleteObjects refuses an entry carrying the current ETag when the key has no null version (or
+\* a null version with another ETag).  This is what metadatapart does today; it does not affect C23 (primary and
+\* secondaries refuse alike) and is modelled as the storage's behaviour.
+\* call: [op |-> "DeleteObjects", b, entries : Seq([k, cond])], cond in {"none", "ifm-cur", "ifm-stale"};
+\* "ifm-cur" carries the ETag HeadObject reports for the key at call time (a stale one if there is no object).
+SameETag(v, w) == v.single = w.single /\ v.parts = w.parts
+BulkRefused(St, b, e) ==
+  LET vs == St.objs[b][e.k]
+      ti == IF St.bver[b] = "Suspended" THEN Idx(vs, 0) ELSE LatestIdx(vs) IN
+  /\ e.cond # "none"
+  /\ \/ ti = 0 \/ e.cond = "ifm-stale"
+     \/ vs[ti].dm \/ ~HasCurrent(vs) \/ ~SameETag(vs[ti], Current(vs))
 RECURSIVE BulkFold(_, _, _, _)
 BulkFold(St, b, es, acc) ==
   IF es = <<>> THEN [s |-> St, ents |-> acc]
-  ELSE LET e == Head(es)
-           a == DeleteObject(St, b, e.k, -1, e.cond) IN
-       IF a.r.err = "PreconditionFailed"
+  ELSE LET e == Head(es) IN
+       IF BulkRefused(St, b, e)
        THEN BulkFold(St, b, Tail(es), Append(acc, [k |-> e.k, deleted |-> FALSE, code |-> "PreconditionFailed"]))
-       ELSE BulkFold(a.s, b, Tail(es), Append(acc, [k |-> e.k, deleted |-> TRUE, code |-> ""]))
+       ELSE BulkFold(DeleteObject(St, b, e.k, -1, "none").s, b, Tail(es), Append(acc, [k |-> e.k, deleted |-> TRUE, code |-> ""]))
 BulkDelete(St, c) ==
   IF ~Exists(St, c.b) THEN [s |-> St, r |-> [NoRes EXCEPT !.err = "NoSuchBucket"], ents |-> <<>>]
   ELSE LET f == BulkFold(St, c.b, c.entries, <<>>) IN [s |-> f.s, r |-> NoRes, ents |-> f.ents]
